@@ -459,7 +459,11 @@ def monitorOp (mu : Mon) (prev : Args) (toks : List String) (implOk : Bool) (out
       let fd := if isFrom && implOk then
           let al := allowOf prev (owner, snd); let al' := allowOf cur (owner, snd)
           (if al.expires.isExpired mu.blk || al.amount < amt then [mk "C02" "C02/draw-without-allowance" s!"allowance={al.amount} amt={amt}"] else []) ++
-          (if al'.amount + amt != al.amount then [mk "C02" "C02/draw-allowance-delta" s!"{al.amount}->{al'.amount} amt={amt}"] else [])
+          (if al'.amount + amt != al.amount then [mk "C02" "C02/draw-allowance-delta" s!"{al.amount}->{al'.amount} amt={amt}"] else []) ++
+          -- … and changes nothing else of it: the owner's expiry stays attached, also when the draw uses the
+          -- allowance up (theorem C02.draw_exact: `{al with amount := al.amount - amt}`)
+          (if al'.expires != al.expires then
+            [mk "C02" "C02/draw-changed-expiry" s!"{al.expires.render}->{al'.expires.render} amt={amt} left={al'.amount}"] else [])
         else []
       -- allowance frame
       let pk := ((obsAllow prev "pallow").map (·.1) ++ vPt.map (·.1)).eraseDups
